@@ -84,6 +84,13 @@ ChainClauses(e) ==
                       Cl("Chain.Prose", s.name, c.dbase = s.dbase /\ c.dann # "diff") >>
               ELSE << Cl("Chain.NamePresent", s.name, FALSE) >>])
       \o << Cl("Chain.Ret", "return", RetRefines(p, o.ret, a.ret)) >>
+      \* the hop-level rule about an explicit None after an option with a default depends only on the description that
+      \* entered this hop (`cur`): it holds inside a chain as well
+      \o (IF art.kind # "argparse" THEN << >> ELSE
+          FlattenSeq([i \in 1..Len(cur.params) |->
+            IF cur.params[i].def = "none" /\ ~IsKw(cur.params[i]) /\ ~Corrupt(cur.params[i]) /\ PriorDefault(cur.params, i)
+               /\ HasName(a.params, cur.params[i].name)
+              THEN << Cl("NoneRecovered", cur.params[i].name, ByName(a.params, cur.params[i].name).def = "none") >> ELSE << >>]))
 
 ParseClauses(e) ==
   IF T.mode = "chain" THEN ChainClauses(e)
@@ -100,6 +107,8 @@ ParseClauses(e) ==
             IF HasName(a.params, b.params[i].name)
               THEN << Cl("NamePresent", b.params[i].name, TRUE) >>
                    \o SlotClauses(k, dd, b.params[i], ByName(a.params, b.params[i].name))
+                   \o (IF k = "argparse" /\ b.params[i].def = "none" /\ ~IsKw(b.params[i]) /\ ~Corrupt(b.params[i]) /\ PriorDefault(b.params, i)
+                         THEN << Cl("NoneRecovered", b.params[i].name, ByName(a.params, b.params[i].name).def = "none") >> ELSE << >>)
               ELSE << Cl("NamePresent", b.params[i].name, FALSE) >>])
       \o RetClauses(k, dd, b.ret, a.ret)
       \o (IF last.kind = k /\ last.dd = dd /\ last.irn >= 2     \* third and later passes: parse(t3) = parse(t2)
